@@ -15,7 +15,8 @@ immutable values, not objects.  Tags: 0 protected caller memory, 1 caller memory
 write (result regions, `self` of constructors / mutating methods), 2 diagnostics, >= 3 allocation
 sites (one per source position).
 
-This file is part 1 (IR, mirror analysis, emission); the translator proper follows below.
+Parts: 1 IR + python mirror of the checker (diagnostics only) + Coq emission; 2 source model; 3 values and
+frames; 4 the translator; 5 programs, control mutants; 6 gen/Progs.v, gen/Shard<k>.v.
 """
 import ast
 import json
@@ -1971,18 +1972,6 @@ def ret_fresh_spec(modname, clsname, fname):
     return None
 
 
-def entry_heap(src):
-    h0, h1 = set(), {(ANY, TAG_OWN)}
-    h0.add((ELEM, TAG_PROT))
-    for name, f in src.fields.items():
-        if name in T.DIAG_FIELDS:
-            h0.add((f, TAG_DIAG))
-            h1.add((f, TAG_DIAG))
-        else:
-            h0.add((f, TAG_PROT))
-    return {TAG_PROT: h0, TAG_OWN: h1, TAG_DIAG: {(ANY, TAG_DIAG)}}
-
-
 OTHER = 2
 
 
@@ -2411,7 +2400,23 @@ def generate(repo):
 def regenerate(repo=None, with_mirror=False):
     """Called by harness/setup.regenerate() and by the C17 check on every run."""
     repo = repo or core.REPO
+    # cache: same sources + same translator + same table + untouched generated file -> nothing to do
+    import hashlib
+    try:
+        deps = [os.path.join(repo, "src", "catii", m + ".py") for m in MODULES] + [__file__, T.__file__]
+        key = core.file_hash(*deps) + ("-m" if with_mirror else "")
+        old = json.load(open(INFO_PATH))
+        if old.get("cache_key", "").startswith(key[:20]) and (not with_mirror or old["cache_key"].endswith("-m")) \
+                and old.get("gen_md5") == hashlib.md5(open(GEN_PATH, "rb").read()).hexdigest() \
+                and all(os.path.exists(os.path.join(os.path.dirname(GEN_PATH), "Shard%d.v" % k)) for k in range(NSHARDS)):
+            old["path"] = GEN_PATH
+            old["cached"] = True
+            return old
+    except Exception:  # noqa - no cache
+        key = None
     text, info, progs, controls = generate(repo)
+    info["cache_key"] = key or ""
+    info["gen_md5"] = hashlib.md5(text.encode()).hexdigest()
     core.write_if_changed(GEN_PATH, text)
     for k in range(NSHARDS):
         core.write_if_changed(os.path.join(os.path.dirname(GEN_PATH), "Shard%d.v" % k), SHARD_TEXT % {"k": k})
